@@ -107,14 +107,14 @@ def gen_pairs(ctx, typ, nsample, clients="Seq2", late="{}", maxsyncs=1, feat="{}
 
 def gen_sim(ctx, name, n, depth=120, alphabet="OpsMix", clients="Seq3", editors='{"c1", "c2", "c3"}', maxedits=4,
             maxsyncs=6, feat='{"idle"}', late="{}", threshold=1000, kinds=None, init=None, weight=40, maxsess=1,
-            maxcompact=0, maxundo=0, interval=0, final="quiesce", seed_off=0, guards=None):
+            maxcompact=0, maxundo=0, interval=0, final="quiesce", seed_off=0, guards=None, maxfaults=0):
     kinds = kinds or MIXKINDS
     init = MIXINIT if init is None else init
     behs = generate(ctx, "gen_sim.cfg", overrides={
         "Alphabet": alphabet, "ClientSeq": clients, "Editors": editors, "MaxEdits": str(maxedits),
         "MaxSyncs": str(maxsyncs), "Feat": feat, "Late": late, "Threshold": str(threshold),
         "InitEdits": str(1 + len(init)), "SyncWeight": str(weight), "MaxSess": str(maxsess),
-        "MaxCompact": str(maxcompact), "MaxUndo": str(maxundo)},
+        "MaxCompact": str(maxcompact), "MaxUndo": str(maxundo), "MaxFaults": str(maxfaults)},
         simulate="num=%d" % n, workers=1, timeout=600,
         )
     nc = int(clients[-1])
@@ -514,7 +514,36 @@ def check_C16(ctx):
         "data-race freedom is not decided by the specification (DESIGN.md section 8)"]
 
 
-CHECKS = {"C16": check_C16, "C07": check_C07, "C09": check_C09, "C14": check_C14, "C18": check_C18, "C01": check_C01, "C02": check_C02, "C03": check_C03, "C04": check_C04, "C06": check_C06, "C08": check_C08,
+C05_TAGS = {"NoDuplicateRow", "PushedExactlyOnce", "PerSessionOrdered", "NoGapBelowCheckpoint", "DeliveredOnce", "SyncNeverFails",
+            "Converged", "RefEquiv", "LogReplayable", "LogDense", "CheckpointBound", "PulledMatchesLog"}
+
+
+def check_C05(ctx):
+    build_harness(ctx)
+    quick = ctx.tier == "quick"
+    n = 200 if quick else 3000
+    fams = [
+        dict(name="fault-cnt", alphabet="OpsCnt", clients="Seq2", editors=E2, feat='{"idle", "fault"}', maxfaults=2, weight=2, maxedits=3, kinds=["n"], init=[]),
+        dict(name="fault-cnt3", alphabet="OpsCnt", clients="Seq3", feat='{"idle", "fault", "detach", "reattach"}', maxfaults=3, maxsess=2, weight=2, maxedits=3,
+             kinds=["n"], init=[]),
+        dict(name="fault-arr", alphabet="OpsArrNoMove", clients="Seq2", editors=E2, feat='{"idle", "fault"}', maxfaults=2, weight=4, maxedits=3, **ARR),
+        dict(name="fault-txt-snap", alphabet="OpsTxt", clients="Seq2", editors=E2, feat='{"idle", "fault"}', maxfaults=2, weight=6, maxedits=3,
+             threshold=2, interval=2, **TXT),
+    ]
+    viols = sim_families(ctx, fams, C05_TAGS, n)
+    fired = 0
+    fresh, known = split_known(ctx, viols)
+    if ctx.counters.get("faults_fired", 0) == 0:
+        raise Infra("vacuous: no fault fired")
+    return "fault_enumeration", fresh, known, dict(mc_cov(ctx), evaluations=ctx.counters.get("behaviours_executed", 0),
+            distinct_nontrivial=ctx.counters.get("faults_fired", 0),
+            rule="behaviours generated by TLC from Yorkie.tla (FaultySync at the explored fault points, then resend of the identical pack); "
+                 "distinct_nontrivial counts faults that actually fired in executed behaviours"), [
+        "explored fault points: error before CreateChangeInfos took effect; error after UpdateClientInfoAfterPushPull took effect (= lost response). "
+        "The points in between are known finding KF-RETRY-DUPLICATES (reproducer re-run on every check)"]
+
+
+CHECKS = {"C05": check_C05, "C16": check_C16, "C07": check_C07, "C09": check_C09, "C14": check_C14, "C18": check_C18, "C01": check_C01, "C02": check_C02, "C03": check_C03, "C04": check_C04, "C06": check_C06, "C08": check_C08,
           "C10": check_C10, "C11": check_C11, "C12": check_C12, "C15": check_C15}
 
 
